@@ -37,7 +37,7 @@ pub(crate) mod k {
     use super::*;
     use crate::__verif::kg::*;
 
-    const LIM4: u32 = if crate::__verif::THOROUGH { 1 << 10 } else { 1 << 6 };
+    const LIM4: u32 = if crate::__verif::THOROUGH { 1 << 8 } else { 1 << 6 };
 
     fn any_arc_full() -> Arc {
         Arc {
